@@ -1059,3 +1059,31 @@ mod poker_card_tests {
         // let paired = 0b10010000000000001000110000101001
     }
 }
+
+/// Read-only hooks for the external verification harness. Compiled only with
+/// `--features verif-hooks`; adds no behaviour.
+#[cfg(feature = "verif-hooks")]
+pub mod verif_hooks {
+    use crate::CardRank;
+    pub use crate::lookups::{FLUSHES, PRODUCTS, UNIQUE_5, VALUES};
+
+    #[must_use]
+    pub fn rank_bits(rank: CardRank) -> u32 {
+        rank.bits()
+    }
+
+    #[must_use]
+    pub fn rank_number(rank: CardRank) -> u32 {
+        rank.number()
+    }
+
+    #[must_use]
+    pub fn rank_prime(rank: CardRank) -> u32 {
+        rank.prime()
+    }
+
+    #[must_use]
+    pub fn rank_shift8(rank: CardRank) -> u32 {
+        rank.shift8()
+    }
+}
